@@ -2723,14 +2723,33 @@ class BaseInterpreter(Generic[TContext, TEvent]):
         # 🌐 Scope to one region when the domain is a parallel state, so
         #    orthogonal siblings are left untouched.
         if domain is not None and domain.type == "parallel":
-            branch: Optional[StateNode] = target_state
-            while branch is not None and branch.parent is not domain:
-                branch = branch.parent
-            if branch is not None:
+            # 🕰️ A history pseudo-state is never entered itself: what is
+            #    entered is what it resolves to, possibly in several regions.
+            #    Scoping to the history node's own (empty) branch exited
+            #    nothing, so the restored states were activated NEXT TO the
+            #    ones still active in their regions — two active children of
+            #    one compound state. Every region about to be re-entered is
+            #    exited first; the others are left untouched as before.
+            entered: List[StateNode] = (
+                self._resolve_history_target(target_state)
+                if target_state.type == "history"
+                else [target_state]
+            )
+            branches: List[StateNode] = []
+            for node in entered:
+                branch: Optional[StateNode] = node
+                while branch is not None and branch.parent is not domain:
+                    branch = branch.parent
+                if branch is not None:
+                    branches.append(branch)
+            if branches or target_state.type == "history":
                 candidates = {
                     s
                     for s in candidates
-                    if s is branch or self._is_descendant(s, branch)
+                    if any(
+                        s is branch or self._is_descendant(s, branch)
+                        for branch in branches
+                    )
                 }
 
         return candidates
